@@ -1374,6 +1374,73 @@ def o_graph_cover(case, T):
     T.cls("tiles_inside:%s" % ("0" if nin == 0 else "<100" if nin < 100 else ">=100"))
 
 
+# ============================================================================ big lon/lat destination tiles (second stage)
+BIGTILE_SETUPS = [("4326", "3577", (133.0, -30.0)), ("4283", "3577", (133.0, -30.0)), ("4326", "3035", (12.0, 52.0)), ("4326", "6933", (25.0, 40.0)), ("4326", "32633", (15.0, 50.0))]
+
+
+@st.composite
+def s_graph_bigtile(draw):
+    k = draw(st.integers(0, len(BIGTILE_SETUPS) - 1))
+    return {"setup": k, "res": draw(st.sampled_from([0.05, 0.1, 0.025])), "span": [draw(st.sampled_from([16.0, 24.0, 36.0])), draw(st.sampled_from([8.0, 12.0, 20.0]))],
+            "tdeg": draw(st.sampled_from([8.0, 12.0, 18.0, 40.0])), "spx": draw(st.sampled_from([2500.0, 5000.0, 10000.0])), "st": draw(st.sampled_from([6, 10, 16])),
+            "off": [draw(st.floats(-3.0, 3.0)), draw(st.floats(-3.0, 3.0))], "flipy": draw(st.booleans())}
+
+
+def o_graph_bigtile(case, T):
+    """The same clause from the other side: a destination in lon/lat cut into tiles many degrees wide, a projected
+    source with tiles of tens of km.  The sides of a destination tile are curves on the source grid; every source tile
+    whose centre lies inside a destination tile (1.5 destination pixels from its border) overlaps it well beyond a
+    sliver and must be listed for it."""
+    from affine import Affine
+
+    from odc.geo.geobox import GeoBox, GeoboxTiles
+
+    la, lb, (clon, clat) = BIGTILE_SETUPS[case["setup"]]
+    res = case["res"]
+    sx_, sy_ = case["span"]
+    lon0, lat1 = clon + case["off"][0] - sx_ / 2, clat + case["off"][1] + sy_ / 2
+    nx, ny = int(round(sx_ / res)), int(round(sy_ / res))
+    Ad = Affine(res, 0, lon0, 0, -res, lat1) if not case["flipy"] else Affine(res, 0, lon0, 0, res, lat1 - ny * res)
+    dst = GeoBox((ny, nx), Ad, mk_crs_spec({"label": la, "spell": "int"}))
+    t = max(8, int(round(case["tdeg"] / res)))
+    dgbt = GeoboxTiles(dst, (t, t))
+    # source grid covering the destination's centre region
+    cx, cy = _tr("4326", lb).transform(clon + case["off"][0], clat + case["off"][1])
+    spx = case["spx"]
+    half = min(2.0e6, 0.6 * max(sx_, sy_) * 111e3 / 2)
+    sn = int(min(480, 2 * half / spx))
+    As = Affine(spx, 0, cx - spx * sn / 2, 0, -spx, cy + spx * sn / 2)
+    src = GeoBox((sn, sn), As, mk_crs_spec({"label": lb, "spell": "int"}))
+    stt = case["st"]
+    sgbt = GeoboxTiles(src, (stt, stt))
+    res_ = dgbt.grid_intersect(sgbt)
+    require(isinstance(res_, dict), "grid_intersect returned %s", type(res_).__name__)
+    nst = -(-sn // stt)
+    jy, jx = np.divmod(np.arange(nst * nst), nst)
+    ccx = np.minimum(sn, jx * stt + stt / 2.0)
+    ccy = np.minimum(sn, jy * stt + stt / 2.0)
+    P = _apply(~Ad, _project(lb, la, _apply(As, np.stack([ccx, ccy], axis=1))))
+    ok = np.isfinite(P).all(axis=1) & (P[:, 0] > 0) & (P[:, 0] < nx) & (P[:, 1] > 0) & (P[:, 1] < ny)
+    listed = {k_: {tuple(int(v) for v in g) for g in v_} for k_, v_ in res_.items()}
+    ndec = 0
+    missing = []
+    for k_ in np.flatnonzero(ok):
+        x, y = float(P[k_, 0]), float(P[k_, 1])
+        ty, tx = int(y // t), int(x // t)
+        hx, hy = min(nx, (tx + 1) * t), min(ny, (ty + 1) * t)
+        if min(x - tx * t, hx - x, y - ty * t, hy - y) < 1.5:
+            continue
+        ndec += 1
+        if (int(jy[k_]), int(jx[k_])) not in listed.get((ty, tx), ()):
+            missing.append(((ty, tx), (int(jy[k_]), int(jx[k_])), round(x - tx * t, 2), round(y - ty * t, 2)))
+    require(not missing, "dst in %s (%dx%d px of %g deg, tiles %d px = %.1f deg), src in %s (%d px of %g m, tiles %d px): %d of %d source tiles whose centre lies > 1.5 px inside a destination tile are not listed for it, e.g. (dst tile, src tile, x, y in the tile) %r",
+            la, ny, nx, res, t, t * res, lb, sn, spx, stt, len(missing), ndec, missing[:3])
+    T.cls("pair:%s<%s" % (la, lb))
+    T.cls("tile_deg:%g" % (t * res))
+    if ndec:
+        T.nontrivial((case["setup"], t, stt, case["spx"]))
+
+
 # ============================================================================ locate
 def _compositions(n):
     for mask in range(1 << (n - 1)):
@@ -1540,6 +1607,7 @@ def build(chk: Check) -> None:
     chk.sub("graph_linear", o_graph_linear, cov={"quick": 300, "thorough": 20000}, strategy=s_graph_linear(), n={"quick": 800, "thorough": 30000}, budget_s={"quick": 60, "thorough": 140})
     chk.sub("graph_rotated", o_graph_rot, strategy=s_graph_rot(), n={"quick": 300, "thorough": 12000}, budget_s={"quick": 60, "thorough": 110})
     chk.sub("graph_continental_cover", o_graph_cover, strategy=s_graph_cover(), n={"quick": 24, "thorough": 800}, budget_s={"quick": 70, "thorough": 300}, shrink=False)
+    chk.sub("graph_big_lonlat_tiles", o_graph_bigtile, strategy=s_graph_bigtile(), n={"quick": 24, "thorough": 800}, budget_s={"quick": 70, "thorough": 300}, shrink=False)
     chk.sub("graph_continental", o_graph_other, strategy=s_graph_other(continental=True), n={"quick": 150, "thorough": 6000}, budget_s={"quick": 60, "thorough": 200}, shrink=False)
     chk.sub("graph_other_crs", o_graph_other, strategy=s_graph_other(), n={"quick": 400, "thorough": 18000}, budget_s={"quick": 60, "thorough": 170})
     chk.sub("locate_enum", o_locate, enum=e_locate, exhaustive_tiers=("thorough",), budget_s={"quick": 60, "thorough": 90})
